@@ -22,6 +22,7 @@ type Engine struct {
 	stale     []string
 	axioms    []string
 	axiomDefs []*Axiom
+	globalInvs []*GlobalInv
 	mapInv    map[string]string
 	accCache  map[string][]accessorImpl
 	typeInv   map[string]string
@@ -523,4 +524,22 @@ func paramFieldPath(fa *ssa.FieldAddr, fn *ssa.Function) (string, int, bool) {
 		}
 	}
 	return "", 0, false
+}
+
+
+// assignedOutsideInit reports a /repo function (other than package initialisers) that stores to g.
+func (e *Engine) assignedOutsideInit(g *ssa.Global) string {
+	for name, fn := range e.funcs {
+		if fn.Synthetic == "package initializer" || strings.HasPrefix(fn.Name(), "init#") || fn.Name() == "init" {
+			continue
+		}
+		for _, b := range fn.Blocks {
+			for _, in := range b.Instrs {
+				if st, ok := in.(*ssa.Store); ok && st.Addr == g {
+					return name
+				}
+			}
+		}
+	}
+	return ""
 }
